@@ -175,7 +175,7 @@ def gen_op(rng, tree, state):
             elems = [{'msg': [mt['name'], V.gen_value(rng, mt, max_len=2)], '_tree': mt} for _ in range(k)]
             if rng.random() < 0.12:
                 elems.append(rng.choice([{'int': 1}, None]))
-            a = {'list': elems} if rng.random() < 0.9 else rng.choice([{'int': 1}, None])
+            a = ({'list': elems} if rng.random() < 0.7 else {'iter': elems}) if rng.random() < 0.9 else rng.choice([{'int': 1}, None])
             return {'op': 'extend', 'path': path, 'i': i, 'a': a}
         if r < 0.85:
             return {'op': 'delItem', 'path': path, 'i': i, 'idx': idx}
